@@ -59,6 +59,15 @@ pub const SHAPES: &[&str] = &[
     "L*L",
     "C?L+",
     "(LC|L)+L",
+    // one atom repeated around a gap ('S' is drawn once per pattern): the
+    // prefix, inner and suffix literals of the pattern overlap each other
+    "SS.*S",
+    "SS.*?S",
+    "(?-u)SS.*S",
+    "(?i-u)SS.*S",
+    "SSC*S",
+    "(?-u:SS[^x]*S)",
+    "S.*SS",
 ];
 
 fn gen_atom(rng: &mut Rng) -> String {
@@ -137,9 +146,11 @@ pub fn gen(rng: &mut Rng, budget: usize) -> String {
 
 pub fn gen_shape(rng: &mut Rng) -> String {
     let shape = rng.pick(SHAPES);
+    let same = rng.pick(&["a", "b", "o", "[ab]", "[Aa]", "[a-c]", "aa", "fo"]);
     let mut s = String::new();
     for ch in shape.chars() {
         match ch {
+            'S' => s.push_str(same),
             'L' => {
                 // literals of varying length, sometimes long
                 let n = match rng.weighted(&[6, 3, 1]) {
